@@ -279,7 +279,7 @@ def gen(seed, tier):
 
 
 ENTRY = {
-    "gen": gen, "harness": "driver_geo", "extra_srcs": extra_srcs,
+    "gen": gen, "harness": "driver_geo", "extra_srcs": extra_srcs, "extra_props": ["C18Curve"],
     "rule": "toolkit: random control values / parameters incl. u = 0, 1, corners with tangents meeting inside the interval and the equal-slope branch; curves: every factory function of MuscleFunctionFactory (8) and TorqueMuscleFunctionFactory (12 overloads) with seeded rational parameters inside the documented ranges, curviness incl. 0 and 1; evaluation orders 0-2 at every knot, inside every section and in both extrapolation regions, orders 3-6 sampled; inverse values in every section and both extrapolations of the monotonic curves; then shift / positive x-scale (y-scale of either sign) and evaluation again; getters, negative x-scale and folding Gaussian parameters in their own case classes; torque muscles: every built-in data set x gender x age group x joint torque; distinct = number of (factory, parameter vector) + toolkit argument tuples + muscles",
     "explanation": "correspondence: control points of the 13 rational factories recomputed by the code-shaped Lean factories, the transcendental ones re-derived section by section with calcQuinticBezierCornerControlPoints from their own knot data; values / derivatives (orders 0-6), segment lookup, extrapolation, shift, scale, getters, inverse-section choice recomputed from the dumped members; certificates on the implementation's outputs: the root finder's u satisfies x(u) = x; C2 (x, y, dy/dx, d2y/dx2 from both sections at every knot and at both hand-overs, by the formal-derivative specification); reported derivative = chain-rule derivative of the Bernstein form (Taylor-series specification); monotone control polygons and sampled monotonicity; calcValue(calcInverseValue(y)) = y; getters = control points; evaluation after shift / scale = transformed original function; torque muscle: activation(torque(a)) = a, partial derivatives vs central differences",
     "assumptions": ["IEEE-754 double evaluation of the polynomials agrees with exact evaluation to 1e-8 relative (checked on every sample)",
